@@ -73,7 +73,7 @@ def run_sched(repo, res):
                 for n in ast.walk(f.node):
                     if isinstance(n, ast.Assign) and any(isinstance(t, ast.Name) and t.id == rl for t in n.targets):
                         pre = pre or (isinstance(n.value, ast.BinOp) and isinstance(n.value.op, ast.Mult)
-                                      and isinstance(n.value.left, ast.List))
+                                      and (isinstance(n.value.left, ast.List) or isinstance(n.value.right, ast.List)))
                 res.oblige('SCHED', f'{f.qualname}: `{rl}` is a pre-sized list', pre, nontrivial=True)
                 if not pre:
                     res.add(Finding('SCHED', f.fullname, f'{rl} not pre-sized', f'{f.module.relpath}:{loop.lineno}',
